@@ -36,6 +36,7 @@ def run(ctx) -> None:
     ctx.guard("C09.sanitise", validator_text)
     ctx.guard("C09.sanitise", validator_numbers)
     ctx.guard("C09.sanitise", simple_emitters)
+    ctx.guard("C09.accepts-valid", accepts_valid)
     from . import c03, c06
 
     ctx.reuse("C09.reject-clean", c03.validate_before_append, "C03.validate-before-append")
@@ -406,6 +407,38 @@ def validator_text(ctx) -> None:
         ctx.rep.check(got["type"], rule, c + "/type", f"non-str {var} raises ValueError", f"`{var}` is not type-checked (isinstance str)", where=v.where())
         if var in TEXT32:
             ctx.rep.check(got["len32"], rule, c + "/length", f"{var} longer than 32 characters raises ValueError", f"`{var}` longer than 32 characters is not rejected", where=v.where())
+
+
+def accepts_valid(ctx) -> None:
+    """The validator refuses nothing that is valid: it is interpreted (rules/init_model.py - our own interpreter, nothing of
+    the repository is executed) for a table of valid argument sets - zero and tiny volumes, the largest accepted volume,
+    well number 0 / 1 / 384, labels of 1 and 32 characters, with and without a worklist limit - and must not reach a raise
+    through a guard that can be evaluated. (Guards that cannot be evaluated, e.g. on the tip, are assumed to pass.)"""
+    from . import init_model
+
+    rule = "C09.accepts-valid"
+    v = ctx.prog.require_func("prepare_aspirate_dispense_parameters", rule)
+    base = dict(rack_label="Plate", position=1, volume=10.0, liquid_class="", tip=init_model.UNK, rack_id="", tube_id="", rack_type="", forced_rack_type="", max_volume=None)
+    table = [dict(base)]
+    for vol in (0, 0.0, 0.004, 1, 950, 7158278):
+        table.append(dict(base, volume=vol))
+    for pos in (0, 1, 384):
+        table.append(dict(base, position=pos))
+    for lab in ("P", "x" * 32):
+        table.append(dict(base, rack_label=lab))
+    table.append(dict(base, max_volume=950, volume=950))
+    table.append(dict(base, max_volume=950.5, volume=0))
+    table.append(dict(base, liquid_class="Water free dispense", rack_id="0123456789", tube_id="T1", rack_type="96 Well Microplate", forced_rack_type="Trough 100ml"))
+    bad = None
+    n = 0
+    for params in table:
+        kind, _ = init_model.run_function(v, {k: val for k, val in params.items() if k in v.params})
+        n += 1
+        if kind == "raise" and bad is None:
+            bad = {k: val for k, val in params.items() if val is not init_model.UNK and base.get(k) != val or k in ("volume", "position", "rack_label")}
+    ctx.rep.touch(v)
+    ctx.rep.check(bad is None, rule, f"{v.qualname}/valid-arguments", f"none of the {n} valid argument sets of the evaluation table is refused",
+                  f"the valid arguments {bad} are refused (a guard that rejects them was reached): a step that the property says must yield a record raises instead", where=v.where())
 
 
 def validator_numbers(ctx) -> None:
